@@ -133,7 +133,7 @@ impl Scenario for C05 {
         }
     }
     fn generate(&self, rng: &mut Prng, tier: Tier) -> Spec {
-        if rng.chance(1, if tier == Tier::Quick { 2_500 } else { 40_000 }) {
+        if rng.chance(1, if tier == Tier::Quick { 3_500 } else { 40_000 }) {
             return gen_giant_fill_spec(rng);
         }
         gen_history_spec(rng, "C05", true, 64)
@@ -417,17 +417,21 @@ fn run_giant_fill(spec: &Spec, st: &mut Stats) -> RunEnd {
     // what the window must hold now: byte o of the request lives at (off + o) % SEG; later bytes overwrite
     // earlier ones. The twin makes the calls the documented composition consists of.
     let mut expect = vec![0u8; SEG];
-    let mut o = 0usize;
     let block = matches!(kind, Kind::Hc128 | Kind::Isaac | Kind::Isaac64);
     let tw = twin.as_mut();
     let r = guard(|| {
-        // only the last SEG bytes of the request survive in the window: earlier ones are just consumed
-        let keep_from = n.saturating_sub(SEG + 16);
+        // Everything but the last SEG + 4096 bytes only has to be CONSUMED: the twin draws it in requests of
+        // 1 MiB (a multiple of every word size, so the composition is the same words; requests of that size
+        // are what the ordinary histories check), which is as fast as the call under test.
+        let keep = SEG + 4096;
+        let bulk = if n > keep { (n - keep) / (1 << 20) * (1 << 20) } else { 0 };
+        let mut scratch = vec![0u8; 1 << 20];
+        let mut o = 0usize;
+        while o < bulk {
+            tw.fill_bytes(&mut scratch);
+            o += 1 << 20;
+        }
         let mut put = |bytes: &[u8], o: &mut usize| {
-            if *o + bytes.len() <= keep_from {
-                *o += bytes.len();
-                return;
-            }
             for b in bytes {
                 if *o < n {
                     expect[(off + *o) % SEG] = *b;
@@ -435,8 +439,8 @@ fn run_giant_fill(spec: &Spec, st: &mut Stats) -> RunEnd {
                 }
             }
         };
+        // the rest, call by call as the documented composition makes them
         if block {
-            // first n little-endian bytes of the next native words
             while o < n {
                 if native32 {
                     put(&tw.next_u32().to_le_bytes(), &mut o);
@@ -445,10 +449,10 @@ fn run_giant_fill(spec: &Spec, st: &mut Stats) -> RunEnd {
                 }
             }
         } else {
-            for _ in 0..n / 8 {
+            while n - o >= 8 {
                 put(&tw.next_u64().to_le_bytes(), &mut o);
             }
-            let tail = n % 8;
+            let tail = n - o;
             if tail > 4 {
                 put(&tw.next_u64().to_le_bytes()[..tail], &mut o);
             } else if tail > 0 {
